@@ -1,6 +1,8 @@
 package absint
 
 import (
+	"go/types"
+
 	"golang.org/x/tools/go/ssa"
 )
 
@@ -10,11 +12,11 @@ func (a *Analyzer) DefaultEntry(fn *ssa.Function) ([]*Obl, []retState) {
 	st := NewState()
 	var args []Term
 	for _, p := range fn.Params {
-		args = append(args, a.unknownOf(p.Type(), p.Name(), st))
+		args = append(args, a.Unknown(p.Type(), p.Name(), st))
 	}
 	var binds []Term
 	for _, fv := range fn.FreeVars {
-		binds = append(binds, a.unknownOf(fv.Type(), fv.Name(), st))
+		binds = append(binds, a.Unknown(fv.Type(), fv.Name(), st))
 	}
 	return a.RunEntry(fn, st, args, binds)
 }
@@ -31,4 +33,52 @@ func Rets(rs []retState) []RetInfo {
 		out[i] = RetInfo{r.st, r.val}
 	}
 	return out
+}
+
+// LoadField loads field `name` of the struct pointed to by p (of pointer type pt).
+func (a *Analyzer) LoadField(st *State, p Term, pt types.Type, name string) (Term, types.Type) {
+	ptr, ok := p.(*Ptr)
+	if !ok {
+		return nil, nil
+	}
+	elem := pt.Underlying().(*types.Pointer).Elem()
+	stt, ok := elem.Underlying().(*types.Struct)
+	if !ok {
+		return nil, nil
+	}
+	for i := 0; i < stt.NumFields(); i++ {
+		if stt.Field(i).Name() == name {
+			ft := stt.Field(i).Type()
+			return a.load(st, &Ptr{Obj: ptr.Obj, Path: ptr.Path + pathField(stt, elem, i)}, ft), ft
+		}
+	}
+	return nil, nil
+}
+
+// Unknown builds an unconstrained value (exported for entry set-up). Pointers and maps made
+// this way are entry parameters: non-nil.
+func (a *Analyzer) Unknown(t types.Type, desc string, st *State) Term {
+	v := a.unknownOf(t, desc, st)
+	switch x := v.(type) {
+	case *Ptr:
+		x.NilUnk = false
+	case *MapT:
+		x.NilUnk = false
+	}
+	return v
+}
+
+// AssumeRange constrains an integer term.
+func AssumeRange(st *State, t Term, lo, hi int64) {
+	if iv, ok := t.(Int); ok {
+		st.AssumeGE(iv.L.AddC(-lo))
+		st.AssumeGE(iv.L.Scale(-1).AddC(hi))
+	}
+}
+
+// AssumeGE0 constrains an integer term to be non-negative.
+func AssumeGE0(st *State, t Term) {
+	if iv, ok := t.(Int); ok {
+		st.AssumeGE(iv.L)
+	}
 }
